@@ -6,7 +6,6 @@ From V Require Import Base.Int Base.IntLemmas Base.Bits Base.Lift Base.Table Gen
 Import ListNotations.
 Open Scope Z_scope.
 Ltac Zify.zify_post_hook ::= Z.to_euclidean_division_equations.
-Set Default Timeout 120.
 
 Definition date_of_dn (n : Z) : Z := mkdate (fst (yo_of_dn n)) (snd (yo_of_dn n)).
 
